@@ -259,4 +259,45 @@ def main(run):
             run.oracle_violation("violating fitness compares better/equal/dominating vs feasible evaluated", case, observed=obs)
         add("CCons %s %s %s %s" % (czl(w), cfs(va, ca), cfs(vb, cb), cbl(obs)), case)
 
+    # ---- histories on one ConstrainedFitness (assign / delete / record a violation), observed after every step
+    for _ in range(run.scale(300, 3000)):
+        n = rng.randint(1, 2)
+        w = [rng.choice([1, -1]) for _ in range(n)]
+        f = mk(w, None, None, True)
+        rv = None if rng.random() < 0.3 else [rng.randint(0, 2) for _ in range(n)]
+        rc = rng.choice([None, None, [False] * n, [True] + [False] * (n - 1)])
+        ref = mk(w, rv, rc, True)
+        ops, obs, pyobs = [], [], []
+        assigned = False
+        for _ in range(rng.randint(1, 6)):
+            r = rng.random()
+            if r < 0.35:
+                v = [rng.randint(0, 2) for _ in range(n)]
+                f.values = tuple(float(x) for x in v)
+                ops.append("(CSet %s)" % czl(v))
+                assigned = True
+            elif r < 0.65:
+                del f.values
+                ops.append("CDel")
+                assigned = False
+            else:
+                c = rng.choice([None, [False] * n, [True] + [False] * (n - 1), [False] * (n - 1) + [True]])
+                f.constraint_violation = c
+                ops.append("(CViol %s)" % copt(c, cbl))
+            six = [bool(op(f, ref)) for op in ops6] + [bool(f.dominates(ref))]
+            cvv = f.constraint_violation
+            cvv = None if cvv is None else [bool(x) for x in cvv]
+            o = (bool(f.valid), [int(x) for x in f.wvalues], cvv, six)
+            pyobs.append(o)
+            obs.append("(%s, %s, %s, %s)" % (cbool(o[0]), czl(o[1]), copt(o[2], cbl), cbl(o[3])))
+            if o[0] != assigned:
+                run.oracle_violation("valid is not 'assigned and not deleted' (constrained fitness history)",
+                                     {"kind": "cons-history", "weights": w, "ops": list(ops)}, observed=o)
+            f_viol = (not assigned) and cvv is not None and any(cvv)
+            if f_viol and rv is not None and (six[4] or six[5] or six[2] or six[6]):
+                run.oracle_violation("violating fitness compares better/equal/dominating vs feasible evaluated (history)",
+                                     {"kind": "cons-history", "weights": w, "ops": list(ops), "ref": [rv, rc]}, observed=o)
+        case = {"kind": "cons-history", "weights": w, "ops": ops, "ref": [rv, rc], "observed": pyobs}
+        add("CConsHist %s %s %s %s" % (czl(w), clist(ops), cfs(rv, rc), clist(obs)), case)
+
     run.correspond("all", "C01", terms, cases)
